@@ -377,3 +377,16 @@ def diffable(v, w):
 
 def any_cmp(F, x, y):
     return any(f(x, y) for f in F)
+
+
+def as_map(v):
+    return v
+
+
+def of_map(m):
+    return m
+
+
+def wf_v(v, D):
+    "a diff well formed for the typed value v, all the way down (run-time twin of the prelude's wf_v)"
+    return wf_deep(v, D)
